@@ -62,6 +62,7 @@ Definition settings_ok (c : config) (p : pool) (u : user) (bp : built) : Prop :=
   bp_pool_mode bp = match u_pool_mode u with Some m => m | None => p_pool_mode p end /\
   bp_plugins bp = match p_plugins p with Some x => Some x | None => g_plugins c end /\
   bp_user_cfg bp = u /\ bp_pool_size bp = u_pool_size u /\
+
   bp_auto_key bp = option_map unquote (p_auto_key p) /\
   bp_parser bp = p_parser p /\ bp_rw_split bp = p_rw_split p /\
   forall row b, In row (bp_databases bp) -> In b row ->
@@ -73,12 +74,13 @@ Definition settings_ok (c : config) (p : pool) (u : user) (bp : built) : Prop :=
     b_max_lifetime b = eff (u_server_lifetime u) (p_server_lifetime p) (g_server_lifetime c) /\
     b_connect_timeout b <> 0 /\ b_idle_timeout b <> 0 /\ b_max_lifetime b <> 0.
 
-(** A built pool belongs to a configured (pool section, user), is servable for it and carries
-    that user's settings. *)
+(** A built pool belongs to a configured (pool section, user), is servable for it, carries
+    that user's settings, and has a secret to present to a server that asks for one — whatever
+    auth_type says about the CLIENT side (fill_pool: auth_query* inherited from [general]). *)
 Definition good (c : config) (bp : built) : Prop :=
   exists p ku, In p (c_pools c) /\ In ku (p_users p) /\
                bp_db bp = p_name p /\ bp_user bp = u_name (snd ku) /\ servable p bp /\
-               settings_ok c p (snd ku) bp.
+               settings_ok c p (snd ku) bp /\ has_secret (fill_pool c p) (bp_user_cfg bp) = true.
 
 (** The same configuration with the two TLS options removed. *)
 Definition without_tls (c : config) : config :=
